@@ -32,6 +32,8 @@ CONSTANTS
     Events,     \* the abstract events explored (built by MCEncode from the bounds)
     FixF8,      \* transcription renders non-text map keys as text (repair of F8)
     FixF9,      \* transcription iterates metrics attributes de-duplicated (repair of F9)
+    AndClaimsUnique, \* transcription: does a concatenation And<A, B> of two unique collections
+                \* report is_unique() (it must not: FALSE is the code; TRUE is the self test)
     CarveF17,   \* TRUE: events that trigger finding F17 are exempt from AttrKeysUnique
     Emit        \* TRUE: print one REPLAY line per completed event
 
@@ -308,9 +310,19 @@ Init ==
     /\ lift = <<>>
     /\ out = [file |-> <<>>, otlp |-> <<>>]
 
+\* Props::dedup() short-circuits to the raw for_each when the collection says is_unique().
+\* The event's properties reach a sink in one of three CARRIERS (ev.carrier):
+\*   "slice"    one array / slice of pairs (is_unique = FALSE)
+\*   "and"      props[1..split] and props[split+1..] are two map-like collections (each unique on
+\*              its own) concatenated with and_props
+\*   "ambient"  props[split+1..] live in the ambient context (a ThreadLocalCtxt frame) and
+\*              emit_core::emit concatenates the event's own properties with them
+\* Duplicates therefore also arise ACROSS the two sides; the first side comes first.
+UniqueClaimB(e) == IF e.carrier = "slice" THEN FALSE ELSE AndClaimsUnique
+
 Dedup ==
     /\ pc = "dedup"
-    /\ dd' = DedupScan(ev, 1, {}, <<>>)
+    /\ dd' = IF UniqueClaimB(ev) THEN AllIdx(ev) ELSE DedupScan(ev, 1, {}, <<>>)
     /\ pc' = "lift"
     /\ UNCHANGED <<ev, lift, out>>
 
@@ -388,6 +400,10 @@ SameAttrs(a, b) == Bag(a) = Bag(b) /\ Len(a) = Len(b)
 Refines ==
     Done => /\ SameAttrs(out.file, FileRecord(ev).attrs)
             /\ SameAttrs(out.otlp, Required(OtlpRecord(ev).attrs))
+
+\* a collection may only claim uniqueness when no key repeats
+UniqueClaimSound ==
+    UniqueClaimB(ev) => \A i, j \in 1..Len(ev.props) : i < j => KeyAt(ev, i) # KeyAt(ev, j)
 
 TypeOK == pc \in {"dedup", "lift", "attr", "done"}
 
